@@ -171,8 +171,9 @@ def live_cases(ctx):
                 for d2 in range(4):
                     for four in (0, 1):
                         msg, peer = mk_open(d1, d2, rng.below(4), four)
-                        out.append({'line': 'FSM %d %d 90 %s e:ManualStartWithPassiveTcpEstablishment;e:TcpConnectionConfirmed;m:%s'
-                                            % (len(out), delay, local, msg.hex()), 'exp': expect(local, peer, four), 'opens': 1,
+                        # every second case applies the negotiated configuration once more (set_negotiated_config is public): a no-op
+                        out.append({'line': 'FSM %d %d 90 %s e:ManualStartWithPassiveTcpEstablishment;e:TcpConnectionConfirmed;m:%s%s'
+                                            % (len(out), delay, local, msg.hex(), ';G' if (len(out) // 2) % 2 else ''), 'exp': expect(local, peer, four), 'opens': 1,
                                     'desc': {'delay_open': delay, 'local': local, 'peer': peer, 'four': four}})
     # a second (and third) negotiation on the same Session
     for delay in (0, 1):
